@@ -28,7 +28,7 @@ def fail_closed(prep, chunks):
     notif = []
     for idx, ch in enumerate(chunks):
         try:
-            guard.guarded(lambda: s.receive(bytes(ch)), 20.0)
+            guard.guarded(lambda: s.receive(bytes(ch)), 5.0)
         except sansldap.ProtocolError as e:
             out = []
             if s.state.name != "CLOSED":
@@ -133,9 +133,33 @@ def run(ctx):
                 for prep in ("client_mid", "client_fresh", "server_fresh", "server_mid", "server_binding"):
                     inputs.append((prep, m_, "huge-int"))
                     inputs.append((prep, m_ + m_, "huge-int"))
+    # messages of several MiB that arrive in many reads (more than 1, 4, 16 MiB pending before they complete), well-formed and with a corrupted
+    # interior: whatever a session does about sizes, an error it raises closes it (implementation only: too large for the line protocol)
+    huge = []
+    for mib in (ctx.scale((5,), (2, 5, 17))):
+        body = bytes(mib * 1024 * 1024)
+        good = C.msg_from_json({"id": 1, "op": {"k": "extReq", "name": C.tx("1.2.3"), "value": None}, "controls": []}).pack(M.PackingOptions())
+        big = tlv(0x30, tlv(2, b"\x05") + tlv(0x77, tlv(0x80, b"1.2.3") + tlv(0x81, body)))
+        bad = tlv(0x30, tlv(2, b"\x05") + tlv(0x77, tlv(0x80, b"1.2.3") + tlv(0x81, body) + b"\x04\x05ab"))
+        for prep in ("server_fresh", "server_mid", "client_mid"):
+            for d_ in (big + good, bad + good):
+                step = 1024 * 1024
+                huge.append((prep, d_, [d_[i: i + step] for i in range(0, len(d_), step)]))
+                huge.append((prep, d_, [d_[:7]] + [d_[7 + i: 7 + i + 3 * step] for i in range(0, len(d_) - 7, 3 * step)]))
     notifs = []
     samples = []
+    for prep, data, chunks in huge:
+        evaluations += 1
+        v, cls, nf = fail_closed(prep, chunks)
+        hist[f"huge-split:{cls}"] += 1
+        notifs.extend((r, b, prep, data[:64]) for r, b in nf)
+        for x in v:
+            x.update({"prep": prep, "stream": f"{len(data)} octets: an ExtendedRequest with a value of {len(data) >> 20} MiB (+ a small message), delivered in "
+                      f"{len(chunks)} reads of {len(chunks[1])} octets", "chunks": None})
+            violations.append(x)
     for prep, data, kind in inputs:
+        if len(violations) > 25:
+            break                      # enough witnesses (each hanging input costs its whole CPU budget)
         parts = [[data]]
         if rng.random() < 0.3 and data:
             parts += ber.chunkings(rng, data, 1)
